@@ -109,6 +109,18 @@ Section Ren.
     rewrite (proj1 Hs). destruct (lam_name sA id); [exact Hs|apply sinv_set; exact Hs].
   Qed.
 
+  Lemma sinv_name_if_created : forall sA0 sB0 sA sB v x,
+    sinv sA0 sB0 -> sinv sA sB ->
+    sinv (name_if_created (length sA0) sA v x) (name_if_created (length sB0) sB (ren v) x).
+  Proof.
+    intros sA0 sB0 sA sB v x H0 Hs. destruct v; try exact Hs. cbn [ren name_if_created].
+    assert (E : Nat.leb (length sB0) (rho id) = Nat.leb (length sA0) id).
+    { pose proof (sinv_lt_iff sA0 sB0 id H0) as Hi.
+      destruct (Nat.leb_spec (length sA0) id), (Nat.leb_spec (length sB0) (rho id)); try reflexivity; lia. }
+    rewrite E. destruct (Nat.leb (length sA0) id); [|exact Hs].
+    exact (sinv_name_if_lambda sA sB (VLam id args body scope) x Hs).
+  Qed.
+
   (* ---- frames ---- *)
   Lemma lookup_frame_ren : forall f x, lookup_frame (renF f) x = option_map ren (lookup_frame f x).
   Proof.
